@@ -72,6 +72,28 @@ def roundtrip(bounds, blocked, api):
     return h
 
 
+def default_reader(nmax):
+    """vbs_bytes_to_list(data) with no options must read plain VBS data as plain VBS, whatever the content looks like"""
+    def h():
+        core.FUEL.set(12)
+        m = M().mciipm
+        n = sym_int('len0', 1, nmax)
+        rec = Source('rec0', 'b', n).rope()
+
+        def rp():
+            return {'kind': 'default_reader', 'args': {'record': concretize(rec, ev)}}
+        data = m.vbs_list_to_bytes([rec])
+        with guard('vbs_bytes_to_list', 'C03/default-reader', rp, allow=(m.MciIpmDataError,)):
+            try:
+                got = m.vbs_bytes_to_list(data)
+            except m.MciIpmDataError as e:
+                fail('plain VBS data refused by vbs_bytes_to_list: %s' % (e.args[:1],), key='C03/default-reader', replay=rp)
+        require(len(got) == 1, 'read %d records' % len(got), key='C03/default-reader', replay=rp)
+        req_eq(got[0], rec, 'record differs', key='C03/default-reader', replay=rp)
+        return {'sample': {'len': ev(n)}, 'replay': rp()}
+    return h
+
+
 def obligations(tier):
     q = tier == 'quick'
     obs = []
@@ -83,6 +105,9 @@ def obligations(tier):
             b2 = [3000, 3000] if q else [6000, 6000]
             obs.append(Ob('rt2/' + tag, roundtrip(b2, blocked, api), 400,
                           'two records, every pair of lengths 1..%d' % b2[0], _funcs))
+    obs.append(Ob('default-reader/unblocked', default_reader(3000 if q else 6000), 300,
+                  'one record of any length and any content (bytes at the offsets a blocking probe would inspect go through the peek table), '
+                  'written and read back through the convenience functions with no options', _funcs))
     if not q:
         for blocked in (False, True):
             obs.append(Ob('rt3/%s/class' % ('blocked' if blocked else 'unblocked'), roundtrip([2500, 2500, 2500], blocked, 'class'), 900,
